@@ -99,13 +99,18 @@ ConnOps(x) ==
        IF ~x.down /\ \E c \in Conns : S(c).st = "open"
          THEN {Op("shutdown", 0, "", 0, "")} ELSE {} }
 
+\* service kinds that (also) say what the request looks like
+ReqKinds == {"strip", "strip2", "fill", "fill64", "ckfar", "ckexp", "cklen"}
+
 DgOps(x) ==
   UNION {
     {Op("reconf", 0, "", lim, "") : lim \in {lm \in {100, 512, 1232, 4096, 60000} : DgReconf(x.dg, lm) # x.dg}},
     {Op("spurious", 0, "", 0, "")},
     IF x.dg.sendfail = 0 THEN {Op("senderr", 0, "", 0, "")} ELSE {},
     IF x.sent[1] < MaxReq
-      THEN {Op("recv", 0, wh, x.sent[1] + 1, svc) : wh \in {"query", "short"}, svc \in Kinds}
+      THEN {Op("recv", 0, "query", x.sent[1] + 1, svc) : svc \in Kinds}
+           \* a datagram shorter than a header is a zero-padded request of no particular shape
+           \cup {Op("recv", 0, "short", x.sent[1] + 1, svc) : svc \in Kinds \ ReqKinds}
            \cup {Op("recv", 0, "query", x.sent[1] + 1, svc) : svc \in {"big", "mid", "huge"}}
            \cup {Op("recv", 0, wh, x.sent[1] + 1, "") : wh \in {"reply", "shortqr"}}
       ELSE {},
@@ -223,7 +228,23 @@ Directed ==
      <<O(1), O(2), O(3), Ab(1), O(4), Cr(4), Q(4,1,"single"), Rl(4,1), Cr(2), Q(2,1,"single"), Rl(2,1)>>,
      \* open / close cycles of every kind do not use up the limit
      <<O(1), Ab(1), O(2), Sh(2), OF(3), O(4), Cr(4), Q(4,1,"single"), Rl(4,1)>>,
-     <<O(1), HT, HT, O(2), Cr(2), Q(2,1,"single"), HT, O(3), Rl(2,1), HT, HT, O(4), Cr(4), Rp(4,1)>> >>
+     <<O(1), HT, HT, O(2), Cr(2), Q(2,1,"single"), HT, O(3), Rl(2,1), HT, HT, O(4), Cr(4), Rp(4,1)>>,
+     \* Framed, on the wire: responses whose last builder operation removed
+     \* octets (OPT stripped by the EDNS middleware, a push rolled back at the
+     \* push limit / at 65535 octets), pipelined with ordinary ones -- a wrong
+     \* length prefix would swallow the next frame
+     <<O(1), Cr(1), Cr(1), Cr(1), Cr(1), Cr(1), Q(1,1,"strip"), Q(1,2,"strip2"), Q(1,3,"single"),
+       Rl(1,1), Rl(1,2), Rl(1,2), Rl(1,3)>>,
+     <<O(1), Cr(1), Cr(1), Cr(1), Q(1,1,"fill"), Q(1,2,"fill64"), Q(1,3,"single"), Rl(1,2), Rl(1,1), Rl(1,3)>>,
+     <<O(1), Q(1,1,"strip"), Q(1,2,"fill"), Rl(1,1), Rl(1,2), Cr(1), Cr(1), SD>>,
+     \* hostile COOKIE options (server cookie half-way round the serial circle,
+     \* expired, of a forbidden length) are answered and disturb nobody
+     <<O(1), O(2), Cr(1), Cr(1), Cr(1), Cr(1), Cr(2), Cr(2), Q(1,1,"ckfar"), Q(2,1,"single"), Rl(1,1), Rl(2,1),
+       Q(1,2,"ckexp"), Q(1,3,"cklen"), Rl(1,2), Q(1,4,"single"), Rl(1,4), Q(2,2,"ckfar"), Rl(2,2)>>,
+     <<O(1), Q(1,1,"cklen"), Q(1,2,"ckfar"), Rl(1,2), Cr(1), Cr(1), HT>>,
+     \* every kind of ServiceError becomes one error response
+     <<O(1), Cr(1), Cr(1), Cr(1), Cr(1), Q(1,1,"ffail"), Q(1,2,"refuse"), Q(1,3,"nimp"), Rl(1,3), Rl(1,1), Rl(1,2),
+       Q(1,4,"single"), Rl(1,4)>> >>
 
 \* servers built with their default configuration: documented timeouts (a
 \* slow reader well below the write timeout loses nothing), queue of 10
@@ -264,7 +285,13 @@ DgDirected ==
        Op("senderr",0,"",0,""), Op("recv",0,"query",3,"single"), Op("release",0,"",3,""),
        Op("recv",0,"query",4,"stream2"), Op("release",0,"",4,""), Op("senderr",0,"",0,""),
        Op("release",0,"",4,""), Op("recv",0,"shortqr",5,""), Op("spurious",0,"",0,""),
-       Op("recv",0,"query",6,"single"), Op("release",0,"",6,"")>> >>
+       Op("recv",0,"query",6,"single"), Op("release",0,"",6,"")>>,
+     \* hostile COOKIE options and every kind of ServiceError over UDP
+     <<Op("recv",0,"query",1,"ckfar"), Op("release",0,"",1,""), Op("recv",0,"query",2,"cklen"),
+       Op("recv",0,"query",3,"ckexp"), Op("recv",0,"query",4,"single"), Op("release",0,"",4,""),
+       Op("release",0,"",3,""), Op("recv",0,"query",5,"refuse"), Op("release",0,"",5,""),
+       Op("recv",0,"query",6,"nimp"), Op("release",0,"",6,""), Op("recv",0,"query",7,"ffail"),
+       Op("release",0,"",7,""), Op("recv",0,"query",8,"ckfar"), Op("release",0,"",8,"")>> >>
 
 EmitDirected ==
   hist = <<>> =>
